@@ -93,6 +93,11 @@ def judge(w, h, res, l0, expected, label, must_not=()):
         ts = spawns.get(simhist.tag_of(c['name']), [])
         if not ts:
             continue
+        if len(ts) < c['numprocesses'] and not c.get('hooks') and not h.get('death_at'):
+            # "each one's workers all spawned before the next watcher begins": nothing refused a spawn here
+            res.violation('C19/next-watcher-began-before-all-workers-were-spawned:' + label,
+                          'watcher %s (numprocesses %d) had only %d workers spawned when the sequence went on'
+                          % (c['name'], c['numprocesses'], len(ts)))
         ts = ts[:c['numprocesses']]
         iv.append((ts[0], ts[-1], c, ts))
         for a, b in zip(ts, ts[1:]):
